@@ -42,6 +42,10 @@ def get(name):
         return P(script="unicode", n_apps=1)
     if name == "holes":         # C04: size classes filled by explicit claims (numeric and decoys), holes, then allocate
         return P(script="holes", n_apps=2)
+    if name == "crowd-retry":       # C05: the third side retries through every door while the first two come back (KF2 on purpose)
+        return P(script=name, n_apps=1, kf="allow", final_quiesce=False)
+    if name == "stale-ns":          # C03 C02 C11 C12: a connection bound across sweeps after a restart
+        return P(script=name, n_apps=2)
     if name == "late-sweep":        # C05 C12: subscribers across late / failing sweeps, several apps
         return P(script=name, n_apps=3)
     if name.startswith("scale-"):   # far beyond the ranges of the random walk (scripts.py)
@@ -63,7 +67,7 @@ def cfg_for(name, seed):
                 {"allow_list": False, "usage": False, "blur": 60}, {"allow_list": True, "usage": True, "blur": 3600}][seed % 4]
     if name in ("scale-time",):      # usage database on (C15), with and without blur
         return USAGE_CFGS[seed % len(USAGE_CFGS)]
-    if name.startswith("scale-") or name == "late-sweep":
+    if name.startswith("scale-") or name in ("late-sweep", "stale-ns", "crowd-retry"):
         return G.CONFIGS[seed % len(G.CONFIGS)]
     if name.startswith("holes"):     # listing allowed and disallowed, usage on and off, in turn
         return G.CONFIGS[seed % len(G.CONFIGS)]
